@@ -5,10 +5,12 @@ From Coq Require Extraction.
 From Coq Require Import ExtrOcamlBasic.
 From CFDP Require Import Base.Prelude Model.Segments.
 From CFDP Require Import Model.Checksum.
+From CFDP Require Import Model.Path.
 
 Extraction Language OCaml.
 Extraction "model.ml"
   Segments.merge_seg Segments.gaps Segments.is_complete Segments.seg_len
   Segments.seg_end Segments.end_or_0
   Checksum.file_checksum
+  Path.path_components Path.path_strip_prefix Path.path_native Path.path_native2
   .
